@@ -18,19 +18,30 @@ Fixpoint s_undelta (ds : list Z) (data : list Z) : option (list Z) :=
   | d :: t => olet! x <- s_undelta t data; delta_decode_bytes d x
   end.
 
-Definition xz_sdec_exec (fs : list sfilter) (src : list Z) : option (list Z * list Z) :=
+Definition xz_sdec_gen (pdec : Z -> list Z -> outcome (list Z * list Z)) (fs : list sfilter) (src : list Z)
+  : option (list Z * list Z) :=
   olet! (ds, dict) <- s_chain_deltas fs;
-  match lzma2_payload_dec dict src with
+  match pdec dict src with
   | Ok (raw, rest) => olet! data <- s_undelta ds raw; Some (data, rest)
   | _ => None
   end.
 
-Definition lz_sdec_exec (dict : Z) (src : list Z) : option (list Z * list Z) :=
-  match lzip_payload_dec dict src with Ok r => Some r | _ => None end.
+Definition xz_sdec_exec := xz_sdec_gen lzma2_payload_dec.
+
+Definition lz_sdec_gen (pdec : Z -> list Z -> outcome (list Z * list Z)) (dict : Z) (src : list Z)
+  : option (list Z * list Z) :=
+  match pdec dict src with Ok r => Some r | _ => None end.
+
+Definition lz_sdec_exec := lz_sdec_gen lzip_payload_dec.
 
 Definition xz_spec_decode_c (lenient : bool) (l : list Z) : option (list Z) :=
   xz_spec_decode xz_sdec_exec lenient l.
-Definition xz_spec_decode_first_c (lenient : bool) (l : list Z) : option (list Z * list Z) :=
-  xz_spec_decode_first xz_sdec_exec lenient l.
 Definition lz_spec_decode_c (l : list Z) : option (list Z * list Z) :=
   lz_spec_decode lz_sdec_exec l.
+
+(* with an output budget of [cap] bytes per block / member (exceeding it = not accepted; the
+   correspondence run only feeds files whose reference decoding stays below the budget) *)
+Definition xz_spec_decode_capped (lenient : bool) (cap : Z) (l : list Z) : option (list Z) :=
+  xz_spec_decode (xz_sdec_gen (lzma2_payload_dec_n (Z.to_nat (cap / 4096 + 3)))) lenient l.
+Definition lz_spec_decode_capped (cap : Z) (l : list Z) : option (list Z * list Z) :=
+  lz_spec_decode (lz_sdec_gen (lzip_payload_dec_n (Z.to_nat (cap / 4096 + 3)))) l.
